@@ -34,7 +34,8 @@ ASSUMPTIONS = [
     "minimum-norm condition on the constrained components (numpy null space), not to equal the generating ones",
     "covariance rows of d-m-s valued angles are written in arcsec^2 divided by gama's own constant 3.0864^2 (exact 3.08642^2): the "
     "6e-6 relative difference of the constant is not asserted",
-    "cases whose reference design matrix has singular values between 1e-10 and 1e-5 of the largest are discarded as ill-conditioned (counted)",
+    "cases whose reference design matrix (whitened) has singular values between 1e-10 and 5e-4 of the largest are discarded as ill-conditioned "
+    "(counted): with cond > 2000 the normal-equation algorithms (sqrt(eps) pivot tolerance) cannot be expected to agree on the rank",
 ]
 REQUIRED_CLASSES = [
     "t.vector", "t.xyz", "t.distance", "t.height", "t.hdiff", "t.zenith", "t.angle",
@@ -44,7 +45,8 @@ REQUIRED_CLASSES = [
     "obs.consistent", "obs.noisy", "cov.full_vector_3x3", "cov.diagonal", "cov.banded", "cov.multi_vector_full", "cov.own_stdev",
     "shift.exact", "shift.small", "shift.medium", "shift.big", "given.xyz", "given.blh", "given.none",
     "redundancy.0", "redundancy.gt0", "truth.asserted", "truth.reproduces_obs", "dump.adj_driver", "perm.compared", "perm.interleaved",
-    "with.dh", "with.deflection", "with.dms", "cluster.mixed_dim",
+    "with.dh", "with.deflection", "with.dms", "cluster.mixed_dim", "cov.big_sigma",
+    "complete.gnss_fixed", "complete.gnss_free", "complete.dist_fixed", "complete.dist_free",
 ]
 
 
@@ -114,6 +116,8 @@ def labels_of(net, An, R, stats):
         band = min(cl["cov"]["band"], max(m - own - 1, 0))
         if own:
             L.add("cov.own_stdev")
+        if cl["cov"].get("sigscale", 1) > 1:
+            L.add("cov.big_sigma")
         if m - own > 0:
             if band == 0:
                 L.add("cov.diagonal")
@@ -173,12 +177,18 @@ def num_slack(R):
     return 1e3 * EPS * R.cond ** 2
 
 
-def noise_floors(net, R):
+def rtr_floor(An, R):
+    """rounding of 6.4e9 mm coordinates (1e-6 mm) in every right-hand side, weighted"""
+    w = 1.0 / max(float(np.linalg.eigvalsh(An.Q)[0]), 1e-300)
+    return 1e-12 + R.m * w * (5e-6 ** 2) + 2.0 * math.sqrt(max(R.rtr, 0.0) * R.m * w) * 5e-6
+
+
+def noise_floors(net, R, An=None):
     """absolute floors of comparisons of quantities proportional to an a posteriori variance that is itself rounding noise"""
     if net["const"].get("ref") == "apriori":
         return (0.0, 0.0, 0.0)
     red = max(R.m - R.rank, 1)
-    vt = 5.1e-6 * R.rtr / red + (num_slack(R) * max(R.rtr, float(R.bb @ R.bb)) + 1e-12) / red + 1e-12
+    vt = 5.1e-6 * R.rtr / red + (num_slack(R) * max(R.rtr, float(R.bb @ R.bb)) + (rtr_floor(An, R) if An is not None else 1e-12)) / red + 1e-12
     return (vt, float(np.max(np.abs(np.diag(R.Q)))) * vt, float(np.max(np.abs(np.diag(R.AQA)))) * vt)
 
 
@@ -303,7 +313,7 @@ def check_against_reference(net, An, R, G, alg, stats, tsuf):
     xs = max(float(np.max(np.abs(x))), 1e-3)
     # sums
     rtr = R.rtr
-    tol = 5.1e-6 * abs(rtr) + sl * max(rtr, float(R.bb @ R.bb)) + 1e-12
+    tol = 5.1e-6 * abs(rtr) + sl * max(rtr, float(R.bb @ R.bb)) + rtr_floor(An, R)
     stats.ratio("ref.sum_of_squares", abs(S["sum-of-squares"] - rtr) / tol)
     if abs(S["sum-of-squares"] - rtr) > tol:
         f.append("%s.%s.sum_of_squares: printed %.6g, reference %.6g" % (pre, alg, S["sum-of-squares"], rtr))
@@ -311,7 +321,7 @@ def check_against_reference(net, An, R, G, alg, stats, tsuf):
     if abs(S["apriori-variance"] - s0 * s0) > 5.1e-6 * s0 * s0:
         f.append("%s.apriori_variance: printed %.6g, input %.6g" % (pre, S["apriori-variance"], s0 * s0))
     apost = rtr / red if red else 0.0
-    tol = 5.1e-6 * apost + (sl * max(rtr, float(R.bb @ R.bb)) + 1e-12) / max(red, 1)
+    tol = 5.1e-6 * apost + (sl * max(rtr, float(R.bb @ R.bb)) + rtr_floor(An, R)) / max(red, 1)
     if abs(S["aposteriori-variance"] - apost) > tol:
         f.append("%s.%s.aposteriori_variance: printed %.6g, reference %.6g (redundancy %d)" % (pre, alg, S["aposteriori-variance"], apost, red))
     use_apriori = net["const"].get("ref") == "apriori"
@@ -511,7 +521,7 @@ def check_min_norm(net, An, R, G, alg, stats):
     return f
 
 
-def compare_results(tag, G1, G2, sl, xs, stats, skip_given=(), what1="", what2="", floors=(0.0, 0.0, 0.0)):
+def compare_results(tag, G1, G2, sl, xs, stats, skip_given=(), what1="", what2="", floors=(0.0, 0.0, 0.0), skip_stdev_obs=False):
     """two printed results (two algorithms / two record orders): everything that is printed must agree"""
     f = []
     S1, S2 = G1["stats"], G2["stats"]
@@ -520,7 +530,7 @@ def compare_results(tag, G1, G2, sl, xs, stats, skip_given=(), what1="", what2="
             f.append("%s.%s: %s %s vs %s %s" % (tag, k, what1, S1[k], what2, S2[k]))
     for k in ("sum-of-squares", "aposteriori-variance", "apriori-variance"):
         a, b = S1[k], S2[k]
-        tol = 1.1e-5 * max(abs(a), abs(b)) + sl * max(abs(a), abs(b), 1e-6) * 10 + 1e-9 + 2 * floors[0]
+        tol = 1.1e-5 * max(abs(a), abs(b)) + sl * max(abs(a), abs(b), 1e-6) * 10 + 1e-9 + 2 * floors[0] * max(1, S1["redundancy"] if isinstance(S1["redundancy"], int) else 1)
         if not abs(a - b) <= tol:
             f.append("%s.%s: %s %.6g vs %s %.6g" % (tag, k, what1, a, what2, b))
     if set(G1["points"]) != set(G2["points"]):
@@ -584,10 +594,13 @@ def compare_results(tag, G1, G2, sl, xs, stats, skip_given=(), what1="", what2="
                 vs = max(vs, abs(v))
     for key in T1:
         def srt(lst):
-            return sorted(lst, key=lambda o: tuple(o[k] for k in sorted(o) if k.endswith("observed") or k.endswith("stdev-obs")))
+            return sorted(lst, key=lambda o: tuple(o[k] for k in sorted(o) if k.endswith("observed") or (k.endswith("stdev-obs") and not skip_stdev_obs)
+                                                   or (skip_stdev_obs and k.endswith("stdev-adj") and False)))
         for o1, o2 in zip(srt(T1[key]), srt(T2[key])):
             for k in o1:
                 if k in ("tag", "from", "to", "id", "ind"):
+                    continue
+                if skip_stdev_obs and k.endswith("stdev-obs"):
                     continue
                 if k not in o2:
                     f.append("%s.obs_fields: %s %s" % (tag, key, k))
@@ -642,7 +655,7 @@ def check_dump_structure(net, An, R, G, dump_text, stats):
         for d in range(dim):
             rn = tscale[o["t"]] if o["t"] in gm.ANGULAR and tscale[o["t"]] > 0 else max(tscale[o["t"]], 1.0)
             e = float(np.max(np.abs(Ag[r + d] - An.A[r + d]))) / rn
-            tol = 1e-10 if o["t"] in ("vector", "xyz") else 2e-6
+            tol = 1e-9 if o["t"] in ("vector", "xyz") else 2e-6
             stats.ratio("dump.design." + o["t"], e / tol)
             if e > tol:
                 extra = "+dh" if any(o.get(kk) for kk in ("fdh", "tdh", "ldh", "rdh")) else ""
@@ -654,7 +667,8 @@ def check_dump_structure(net, An, R, G, dump_text, stats):
                 break
             # right-hand side
             # mm: rounding of 6.4e9 mm coordinates; cc: rounding of the angle and of the gon text
-            sc_r = 1e-12 * abs(An.rhs[r + d]) + (1e-15 * 6.4e9 if o["t"] in ("vector", "xyz", "distance", "height", "hdiff") else 1e-6)
+            # (gama evaluates angles and zenith angles by acos: 1.5e-8 rad = 0.01 cc near 0 and 200 gon)
+            sc_r = 1e-12 * abs(An.rhs[r + d]) + (1e-15 * 6.4e9 if o["t"] in ("vector", "xyz", "distance", "height", "hdiff") else 0.02)
             er = abs(D["rhs"][r + d] - An.rhs[r + d])
             stats.ratio("dump.rhs." + o["t"], er / sc_r)
             if er > sc_r:
@@ -688,7 +702,7 @@ def check_dump_solution(net, An, R, G, D, dump_text, stats):
     if pf:
         return pf
     # numpy on the dump itself
-    Rd = ref_linalg.solve(D["A"], D["rhs"], D["C"], None if not D["minx"] else [i - 1 for i in D["minx"]], rank_gap=(1e-5, 1e-10))
+    Rd = ref_linalg.solve(D["A"], D["rhs"], D["C"], None if not D["minx"] else [i - 1 for i in D["minx"]], rank_gap=(5e-4, 1e-10))
     if Rd is None or Rd.x is None:
         stats.label("dump.numpy_rank_ambiguous")
         return f
@@ -771,20 +785,12 @@ def collapse(tag, cls):
     name of the quantity stays in the message"""
     parts = tag.split(".")
     if len(parts) >= 4 and parts[0] == "g3" and parts[1] in ("ref", "algdiff", "perm", "perm_interleaved"):
-        if parts[1] in ("ref", "algdiff"):
-            head, what = parts[:3], parts[3:]
-        else:
-            head, what = parts[:2], parts[2:]
+        head, what = parts[:3], parts[3:]        # g3.<check>.<algorithm>
         what = [w for w in what if w not in ("free", "regular")]
         if what and what[0] in _SOL:
             return ".".join(head + [cls, "solution"])
         if what and what[0] in _COV:
             return ".".join(head + [cls, "covariance"])
-    if len(parts) == 3 and parts[1] in ("perm", "perm_interleaved"):
-        if parts[2] in _SOL:
-            return ".".join(parts[:2] + [cls, "solution"])
-        if parts[2] in _COV:
-            return ".".join(parts[:2] + [cls, "covariance"])
     if len(parts) == 4 and parts[:2] == ["g3", "dump"] and parts[2].startswith("adj_"):
         q = parts[2][4:]
         if q in ("x", "r", "rtr", "vs_printed"):
@@ -807,7 +813,7 @@ def prepare(net, stats):
     if R is None:
         stats.label("discard_ill_conditioned")
         return None
-    if R.d > 0 and net["kind"] in ("gnss_fixed", "mixed_fixed"):
+    if R.d > 0 and net["kind"] in ("gnss_fixed", "mixed_fixed", "dist_fixed"):
         stats.label("discard_singular_fixed_network")
         return None
     if R.d > 0 and not R.resolving:
@@ -855,8 +861,8 @@ def oracle(case, stats):
                     refusals.append("g3.obs.dropped.angle.blh_point: gama-g3 --algorithm %s exits %s (%s): without the %d angle(s) that have a point given "
                                  "as B-L-H the network is singular" % (alg, raw["rc"], refused_text(raw), len(hb)))
                     continue
-            refusals.append("g3.refused.%s: gama-g3 exits %s on a network the reference finds well posed (rank %d of %d, cond %.3g, defect %d): %s"
-                         % (alg, raw["rc"], R.rank, R.n, R.cond, R.d, refused_text(raw)))
+            refusals.append("g3.refused.%s.%s: gama-g3 exits %s on a network the reference finds well posed (rank %d of %d, cond %.3g, defect %d): %s"
+                         % (alg, "free" if R.d > 0 else "regular", raw["rc"], R.rank, R.n, R.cond, R.d, refused_text(raw)))
             continue
         results[alg] = G
     if not results:
@@ -884,7 +890,7 @@ def oracle(case, stats):
             stats.label("discard_ill_conditioned")
             return finish(fails, None)
     labels_of(net, An, R, stats)
-    stats.ratio("cond/1e5", R.cond / 1e5)
+    stats.ratio("cond/2e3", R.cond / 2e3)
     if G0["rejected"]:
         fails.append("g3.rejected: %d observation(s) rejected in a network without gross errors: %s" % (len(G0["rejected"]), G0["rejected"][:2]))
         return finish(fails, R)
@@ -908,7 +914,7 @@ def oracle(case, stats):
     sl = num_slack(R)
     xs = max(float(np.max(np.abs(R.x))), 1e-3)
     names = [a for a in results if results[a]["stats"]["defect"] == R.d]
-    fl = noise_floors(net, R)
+    fl = noise_floors(net, R, An)
     if len(names) > 1:
         from ..runner import Stats as _S
         bad = {a: 0 for a in names}
@@ -930,7 +936,7 @@ def oracle(case, stats):
         text2 = gm.write_xml(net, An.net, An.obsval, order=order)
         G2, raw2, fail = run_alg(text2, case["alg"])
         if fail:
-            fails.append(fail.replace("g3.crash", "g3.perm.crash"))
+            fails.append(fail.replace("g3.crash", "g3.perm_crash"))
         elif G2 is None:
             fails.append("g3.perm.refused: the permuted input is refused (exit %s): %s" % (raw2["rc"], refused_text(raw2)))
         else:
@@ -938,8 +944,10 @@ def oracle(case, stats):
             if order.get("interleave"):
                 stats.label("perm.interleaved")
             skip = set(ids[i] for i in override)
-            tag = "g3.perm_interleaved" if order.get("interleave") else "g3.perm"
-            fails += compare_results(tag, G0, G2, sl, xs, stats, skip_given=skip, what1="original", what2="permuted", floors=fl)
+            tag = ("g3.perm_interleaved." if order.get("interleave") else "g3.perm.") + case["alg"]
+            mixed = any(len(set(gm.OBS_DIM[o["t"]] for o in cl["obs"])) > 1 for cl in net["clusters"])
+            fails += compare_results(tag, G0, G2, sl, xs, stats, skip_given=skip, what1="original", what2="permuted", floors=fl, skip_stdev_obs=mixed)
+    stats.label("complete." + net["kind"])
     return finish(fails, R)
 
 
